@@ -222,13 +222,30 @@ func c10Check(env *h.Env, c *c10Case) error {
 		for _, p := range refNoMap.Reported {
 			allowed[p] = true
 		}
+		// the dependency's parent-results divergence shows here too: a path the
+		// naive evaluation drops but the unpruned chain model reports
+		chainAllowed := map[string]bool{}
+		if chain, cerr := c10Reference(listing, &c10Case{Tree: c.Tree, Include: c.Include, Exclude: c.Exclude}, true); cerr == nil {
+			for _, p := range chain.Reported {
+				chainAllowed[p] = true
+			}
+		}
+		var divergent []string
 		for _, p := range gotPaths {
 			if !allowed[p] {
+				if chainAllowed[p] {
+					divergent = append(divergent, p)
+					continue
+				}
 				return fmt.Errorf("%q reported but neither selected nor an ancestor of a selected entry", p)
 			}
 			if c.Map != nil && c.Map[p].Res != 0 {
 				return fmt.Errorf("%q reported although the map function dropped it", p)
 			}
+		}
+		if len(divergent) > 0 {
+			return env.Known("patternmatcher-parent-results-divergence",
+				"include=%q exclude=%q (callback SkipDir on %q): walk reports %q which the naive reference drops; patternmatcher.MatchesUsingParentResults (threaded down the ancestor chain, no pruning) selects them too", c.Include, c.Exclude, c.CbSkip, divergent)
 		}
 		return nil
 	}
